@@ -33,6 +33,7 @@ from harness import values as V
 from harness.core import cbool, clist, cnat, cz, err_name
 
 PID = "C03"
+TRANSLATE = ["EqTyping.v"]   # translator tie: infer_dtype / promote_with / validate_scalar regenerated; Part 3 restates C03 for them
 PRELUDE = ("From Coq Require Import List ZArith.\nImport ListNotations.\n"
            "From Serif Require Import Base.PyVal Base.StErr Spec.PySlice Model.Index Model.SetItem Model.Typed Corr.C03.")
 FAILING = "C03.failing"
